@@ -481,6 +481,8 @@ class Ops(SeriesOps):
     def f_assign(self, f, pos, kw, node):
         g = self.newframe(f, node, "assign")
         for k, v in kw.items():
+            if isinstance(v, FuncRef):
+                v = self.M.invoke(v, [g], {}, node, "assign-callable")          # assign(col=callable): called with the frame as it is so far (earlier keywords included)
             g.setcol(k, self._value_term(g, v, node, f"assign {k}"))
             self.log("assign-col", node, dst=g.obj, column=k, term=g.cols[k])
         return g
